@@ -1,7 +1,9 @@
 import Pyunicorn.Model.Proto
 import Pyunicorn.Model.Access
 import Pyunicorn.Model.WhileKernels
+import Pyunicorn.Model.LineIdx
 import Pyunicorn.Generated.StructC20Pyx
+import Pyunicorn.Generated.StructC20Py
 /-! Line-protocol driver of C20: access traces / verdicts of the raw-pointer
 routines and outcomes of the `while` kernels. -/
 open Pyunicorn Pyunicorn.Proto Pyunicorn.Access
@@ -115,6 +117,11 @@ def answer (toks : List String) : String :=
       (tmiCall n.toNat! t.toNat! n2.toNat! t2.toNat! nb.toInt! (odata dO) (odata dS)).str
   | ["call", "mi", n, t, nb, zdiv, sc, rm, d] =>
       (miCall n.toNat! t.toNat! nb.toInt! (zdiv == "1") (orat sc) (orat rm) (odata d)).str
+  | ["call", "miobj", objn, n, t, nb, zdiv, sc, rm, d] =>
+      -- the same call on an object with `self.N = objn`: the integers handed to the kernel are
+      -- taken from where the *generated* table `mi_pysizes` says
+      (miObjCall Pyunicorn.Generated.StructC20Py.mi_pysizes objn.toNat! n.toNat! t.toNat! nb.toInt!
+        (zdiv == "1") (orat sc) (orat rm) (odata d)).str
   | ["call", "vcfb", n, i, na] => (vcfbCall n.toNat! i.toInt! na.toNat!).str
   | ["call", "ecfb", n, na] => (ecfbCall n.toNat! na.toNat!).str
   | ["adaptive", n, a, sn, ord, rec] =>
@@ -123,6 +130,16 @@ def answer (toks : List String) : String :=
       (if WhileKernels.tablesOK r.length n.toNat! (intMat sn) (ints ord) r then "valid|" else "any|") ++
       WhileKernels.showOutcome
         (WhileKernels.adaptive n.toNat! a.toNat! (intMat sn) (ints ord) r)
+  | ["linedist", name, nt, dim, r0, r1, m0, e0, e1, h0, rm, em, eps2, mm] =>
+      -- a wrapper of `_line_dist` on buffers of the given extents: IndexError or the histogram
+      match Pyunicorn.Generated.StructC20Py.line_dist_wrappers.find? (·.name == name) with
+      | none => "unknown-wrapper"
+      | some w =>
+        match Pyunicorn.LineIdx.outcome w nt.toInt! dim.toInt!
+            ⟨r0.toInt!, r1.toInt!, m0.toInt!, e0.toInt!, e1.toInt!, h0.toInt!⟩
+            (intMat rm) (intMat em) eps2.toInt! (ints mm) with
+        | none => "raise"
+        | some h => if h.isEmpty then "-" else join (h.map toString)
   | ["psites", key, b, kv] => predictKernel key b.toInt! (kvs kv)
   | _ => "bad-request"
 
